@@ -108,7 +108,8 @@ def run(ctx, replay=None):
             ctx.violation("io harness crashed: " + err[-300:], "io-harness-crash", err[-4000:], name="io-crash.txt", no_input=True)
             continue
         for k, v in ctx.stat_lines(err).items():
-            stats[k] = stats.get(k, 0) + v
+            # (the start-up probe result is a flag, not a count)
+            stats[k] = max(stats.get(k, 0), v) if k == "both_halves_supported" else stats.get(k, 0) + v
         rc, lines = ctx.driver("io", trace)
         if rc != 0 or not any(l.startswith("TOTAL ") for l in lines):
             ctx.violation("io model driver failed", "io-driver-failure", "\n".join(lines[-30:]), no_input=True)
